@@ -104,10 +104,10 @@ class World:
             return ("obj", name)
         if kind in ("interface", "union"):
             if self.mode == 1:
-                a = mix(h, 0) % 16
-                if a == 6:
+                a = mix(h, 0) % 4
+                if a == 2:
                     return ("obj", self.d.get("query") or "Query")
-                if a == 5:
+                if a == 1 and mix(h, 3) % 4 == 0:
                     return ("obj", "Nope__")
             poss = self.possible(name)
             if not poss:
